@@ -269,14 +269,13 @@ def parseFunc (w : String) : Option Func :=
 def handle (words : List String) : String :=
   let funcs := (words.filter (·.startsWith "func:")).filterMap parseFunc
   let ops := words.filter (fun w => !w.startsWith "func:")
-  let h0 : Host := ⟨⟨SState.init, [], [], false, []⟩, [], [], []⟩
+  let h0 : Host := ⟨{ s := SState.init, evs := [], cache := [] }, [], [], []⟩
   let h := ops.foldl (hostWord funcs) h0
   let s := h.st.s.h
   let leaked := (List.range s.nobj).filter fun o => s.destroyed o == 0
   "model=" ++ "|".intercalate h.outs ++ " ev=" ++ "/".intercalate h.segs ++
     " leak=" ++ ",".intercalate (leaked.map objName) ++
-    " inv=" ++ ",".intercalate (h.st.involved.map fun p => objName p.1 ++ "@" ++ toString p.2) ++
-    (if h.st.orphaned then " kf=C17.createEnv_arg_throw_leaks_context" else "")
+    " inv=" ++ ",".intercalate (h.st.involved.map fun p => objName p.1 ++ "@" ++ toString p.2)
 
 end O
 
